@@ -23,6 +23,12 @@ def v(props, kind, file, old, new, note='', every=False):
                   every=every))
 
 
+def vp(props, kind, patch, note=''):
+    """a variant given as a unified diff (path relative to /verif): larger refactorings"""
+    V.append(dict(props=props.split(), kind=kind, file=patch, old='(patch)', new=patch, note=note,
+                  every=False, patch=patch))
+
+
 K = '_numba_integrate.py'
 # ------------------------------------------------------------------ kernel / C01 C16 C17
 v('C01 C04', 'fire', K, 'rho2 = -V1 / rn', 'rho2 = V1 / rn', 'transport-rate sign')
@@ -834,6 +840,13 @@ def _run_variant(args):
         if var is not None and var.get('transform') is not None:
             from . import audit
             audit.apply(var['transform'], d)
+        elif var is not None and var.get('patch'):
+            here = os.path.dirname(os.path.dirname(os.path.abspath(__file__)))
+            pr = subprocess.run(['patch', '-p1', '-s', '--no-backup-if-mismatch', '-i',
+                                 os.path.join(here, var['patch'])], cwd=d, capture_output=True,
+                                text=True)
+            if pr.returncode != 0:
+                return ('skipped', None, '')
         elif var is not None:
             p = os.path.join(dst, var['file'])
             with open(p) as fh:
